@@ -761,6 +761,82 @@ func ruleNoPrune(c *Ctx) {
 				l.add("R-NOPRUNE", b.Name, key, "", Discharged, "prune family "+strings.Join(names, ", ")+": callers are the family itself, merge, mergeDocs and doMergePatch", true)
 			}
 		}
+		// merge hands the patch node itself back in two situations: the target is not an object
+		// (the patch value replaces it and must have lost its own null members first) and the
+		// patch is not an object (nothing to prune). So every path from the entry to a return
+		// of the patch parameter passes a call pruneNulls(patch) or the object probe of the
+		// patch; a prune that runs only when some test of the patch's text says so leaves a
+		// null member in the stored value for the spellings the test does not know
+		if mf.merge != nil {
+			var pp *ssa.Parameter
+			np := 0
+			for _, p := range mf.merge.Params {
+				if isPtrToNamed(p.Type(), "lazyNode") {
+					np++
+					if np == 2 {
+						pp = p
+					}
+				}
+			}
+			key := "merge: the patch node is handed back only behind pruneNulls(patch) or its own object probe"
+			if pp == nil {
+				l.add("R-NOPRUNE", b.Name, key, b.rel(mf.merge.Pos()), Undecided, "merge has no second *lazyNode parameter", true)
+			} else {
+				barrier := map[*ssa.BasicBlock]bool{}
+				allInstrs(mf.merge, func(i ssa.Instruction) {
+					ci, ok := i.(ssa.CallInstruction)
+					if !ok {
+						return
+					}
+					cc := ci.Common()
+					g := cc.StaticCallee()
+					if g == nil || len(cc.Args) == 0 || cc.Args[0] != ssa.Value(pp) {
+						return
+					}
+					if g == mf.pruneNulls || g.Name() == "intoDoc" {
+						barrier[i.Block()] = true
+					}
+				})
+				bad := ""
+				nret := 0
+				seen := map[*ssa.BasicBlock]bool{}
+				var q []*ssa.BasicBlock
+				if len(mf.merge.Blocks) > 0 && !barrier[mf.merge.Blocks[0]] {
+					q = append(q, mf.merge.Blocks[0])
+					seen[mf.merge.Blocks[0]] = true
+				}
+				for len(q) > 0 {
+					bb := q[0]
+					q = q[1:]
+					for _, s := range bb.Succs {
+						if !seen[s] && !barrier[s] {
+							seen[s] = true
+							q = append(q, s)
+						}
+					}
+				}
+				for _, bb := range mf.merge.Blocks {
+					if len(bb.Instrs) == 0 {
+						continue
+					}
+					r, ok := bb.Instrs[len(bb.Instrs)-1].(*ssa.Return)
+					if !ok || len(r.Results) == 0 || r.Results[0] != ssa.Value(pp) {
+						continue
+					}
+					nret++
+					if seen[bb] {
+						bad = "return of the patch node at " + b.posOf(r) + " is reachable from the entry without pruneNulls(patch) and without the patch's object probe: the value stored in place of a non-object target keeps its null members on that path"
+					}
+				}
+				if bad != "" {
+					l.add("R-NOPRUNE", b.Name, key, b.rel(mf.merge.Pos()), Violated, bad, true)
+				} else if nret == 0 {
+					l.add("R-NOPRUNE", b.Name, key, b.rel(mf.merge.Pos()), Undecided, "merge returns its patch parameter nowhere: the shape this obligation reads is gone", true)
+				} else {
+					l.add("R-NOPRUNE", b.Name, key, b.rel(mf.merge.Pos()), Discharged, fmt.Sprintf("%d return(s) of the patch parameter; none reachable from the entry around the blocks that call pruneNulls(patch) or patch.intoDoc", nret), true)
+				}
+			}
+		}
 		fn := mf.mergeDocs
 		flag := boolParam(fn)
 		ml := b.findMemberLoop(fn)
